@@ -231,7 +231,7 @@ example : tooLongHistory orders = [.apiDiff 10 0, .apiDiff 10 0, .tooLong, .stor
 /-- The regenerated orders are the ones the manager-level invariant is proved for. -/
 theorem orders_good : GoodOrders orders :=
   ⟨by decide, by decide, by decide, by decide, by decide, by decide, by decide, by decide, by decide, by decide,
-   by decide, by decide, by decide, by decide, by decide, by decide, by decide, by decide, by decide⟩
+   by decide, by decide, by decide, by decide, by decide, by decide, by decide, by decide, by decide, by decide⟩
 
 /-- The regenerated guards: the apply callbacks dispatch only a non-empty converted batch
 (`applyQts` always: its batch has no markers), the difference branches dispatch when any of new
@@ -243,54 +243,74 @@ theorem dispatch_guards :
     Facts.C03.diffRerouteGuard = [4] ∧ Facts.C03.sliceRerouteGuard = [4] ∧ Facts.C03.chSendOutGuard = [4] := by
   decide
 
+/-- `internalState.handleChannel`, pinned by source text (the value written by the initial
+`SetChannelPts` is the separate fact `creationStore`): an untracked channel whose access hash is
+unknown costs one `restoreAccessHash`; otherwise the stored channel pts is used if there is one,
+else `localPts = pts - ptsCount` is written and the worker starts from `localPts`. -/
+theorem handleChannel_src : Facts.C03.handleChannelSrc =
+    "{ if err := validatePts(pts, ptsCount); err != nil { s.log.Error(ctx, \"Pts validation failed\", log.Error(err), log.Any(\"update\", cu.update)) return nil } state, ok := s.channels[channelID] if !ok { accessHash, found, err := s.hasher.GetChannelAccessHash(context.Background(), s.selfID, channelID) if err != nil { s.log.Error(ctx, \"GetChannelAccessHash error\", log.Error(err)) } if !found { if date == 0 { date = s.date - 30 } else { date-- } accessHash, found = s.restoreAccessHash(ctx, channelID, date) if !found { s.log.Debug(ctx, \"Failed to recover missing access hash, update ignored\", log.Int64(\"channel_id\", channelID), log.Any(\"update\", cu.update), ) return nil } } localPts, found, err := s.storage.GetChannelPts(ctx, s.selfID, channelID) if err != nil { localPts = pts - ptsCount s.log.Error(ctx, \"GetChannelPts error\", log.Error(err)) } if !found { localPts = pts - ptsCount if err := s.storage.SetChannelPts(ctx, s.selfID, channelID, _); err != nil { s.log.Error(ctx, \"SetChannelPts error\", log.Error(err)) } } state = s.newChannelState(channelID, accessHash, localPts) s.channels[channelID] = state s.wg.Go(func() error { return state.Run(ctx) }) } return state.Push(ctx, cu) }" := rfl
+
+/-- The channel state written when a channel is met for the first time is the position *before*
+the update that introduced it (`localPts = pts − ptsCount`), not the update's own pts. -/
+theorem creation_stores_local : orders.creationStoresLocal = true := by decide
+
 /-- **Prefix safety for the whole manager model.** For any server world satisfying `scnOK`, any
-persisted start, any number of tracked channels and any list of harness actions, the trace of the
-manager model (main loop, channel workers, queues, difference oracle) is safe for every tracked
-sequence: at every store everything at or below the stored value was dispatched before, unless
-too-long was reported before. -/
-theorem C03_manager_prefix_safe (w : World) (fp fq : Int) (fc : List (Nat × Int)) (acts : List Action)
-    (hS : scnOK w.log (seqKeys fc) (initOf w.p0 w.q0 w.c0) = true) (k : Nat) (hk : k ∈ seqKeys fc) :
-    safe (seqLog w.log k) (mkOf w.log) (initOf fp fq fc k) [] false
+persisted start `fp fq fc`, any channels `cr` met for the first time during the run (with their
+first-contact positions, where their sequences start) and any list of harness actions, the trace
+of the manager model (main loop, channel creation, channel workers, queues, difference oracle) is
+safe for every tracked sequence: at every store — the initial store of a freshly created channel
+included — everything at or below the stored value was dispatched before, unless too-long was
+reported before. -/
+theorem C03_manager_prefix_safe (w : World) (fp fq : Int) (fc cr : List (Nat × Int)) (acts : List Action)
+    (hpe : w.persisted = fc) (hcr : w.cr = cr)
+    (hS : scnOK w.log (seqKeys (fc ++ cr)) (initOf w.p0 w.q0 w.c0) = true) (k : Nat) (hk : k ∈ seqKeys (fc ++ cr)) :
+    safe (seqLog w.log k) (mkOf w.log) (initOf fp fq (fc ++ cr) k) [] false
       (projSeq w.log k ((Mgr.start orders w fp fq fc).runActions orders acts).trace) = true := by
   have hscn := scn_of_ok _ _ _ hS
-  obtain ⟨hw, htr, _⟩ := mgr_projects orders orders_good w fp fq fc hscn acts k hk
+  obtain ⟨hw, htr, _⟩ := mgr_projects orders orders_good w fp fq fc cr hpe hcr hscn acts k hk
   rw [htr]
-  exact C03_prefix_safe k (mkOf w.log) (seqLog w.log k) _ (initOf fp fq fc k) (hscn.tiledK k hk) _ hw
+  exact C03_prefix_safe k (mkOf w.log) (seqLog w.log k) _ (initOf fp fq (fc ++ cr) k) (hscn.tiledK k hk) _ hw
 
 /-- **Crash and restart for the whole manager model.** First run: any actions; crash at any point
 of its trace (`pre ++ post`).  Second run: a manager started on the same server log from a
-persisted state that, for sequence `k`, is what the first run had stored in `pre`; any actions; at
-its end the position of `k` is at or above every log position of `k`.  Then every non-marker entry
-of `k` above the original start was dispatched in `pre` or in the second run, or too-long was
-reported in one of them. -/
-theorem C03_manager_restart_complete (w : World) (fp fq : Int) (fc : List (Nat × Int)) (acts1 : List Action)
-    (hS : scnOK w.log (seqKeys fc) (initOf w.p0 w.q0 w.c0) = true) (k : Nat) (hk : k ∈ seqKeys fc)
+persisted state that, for sequence `k`, is what the first run had stored in `pre` (for a channel
+first met in the first run whose initial state was not written before the crash: the second run
+meets it at the same position); any actions; at its end the position of `k` is at or above every
+log position of `k`.  Then every non-marker entry of `k` above the original start was dispatched
+in `pre` or in the second run, or too-long was reported in one of them. -/
+theorem C03_manager_restart_complete (w : World) (fp fq : Int) (fc cr : List (Nat × Int)) (acts1 : List Action)
+    (hpe : w.persisted = fc) (hcr : w.cr = cr)
+    (hS : scnOK w.log (seqKeys (fc ++ cr)) (initOf w.p0 w.q0 w.c0) = true) (k : Nat) (hk : k ∈ seqKeys (fc ++ cr))
     (pre post : List Event) (hp : ((Mgr.start orders w fp fq fc).runActions orders acts1).trace = pre ++ post)
     (w2 : World) (hl2 : w2.log = w.log) (hp2 : w2.p0 = w.p0) (hq2 : w2.q0 = w.q0) (hc2 : w2.c0 = w.c0)
-    (fp2 fq2 : Int) (fc2 : List (Nat × Int)) (hkeys : seqKeys fc2 = seqKeys fc)
-    (hstart : initOf fp2 fq2 fc2 k = lastStore (initOf fp fq fc k) (projSeq w.log k pre))
+    (fp2 fq2 : Int) (fc2 cr2 : List (Nat × Int)) (hpe2 : w2.persisted = fc2) (hcr2 : w2.cr = cr2)
+    (hkeys : seqKeys (fc2 ++ cr2) = seqKeys (fc ++ cr))
+    (hstart : initOf fp2 fq2 (fc2 ++ cr2) k = lastStore (initOf fp fq (fc ++ cr) k) (projSeq w.log k pre))
     (acts2 : List Action) (b : Box)
     (hb : ((Mgr.start orders w2 fp2 fq2 fc2).runActions orders acts2).getBox k = some b)
     (hrec : ∀ e ∈ seqLog w.log k, e.pos ≤ b.state) :
     let t2 := projSeq w.log k ((Mgr.start orders w2 fp2 fq2 fc2).runActions orders acts2).trace
     hasTooLong (projSeq w.log k pre) = true ∨ hasTooLong t2 = true ∨
-      ∀ e ∈ seqLog w.log k, initOf fp fq fc k < e.pos →
+      ∀ e ∈ seqLog w.log k, initOf fp fq (fc ++ cr) k < e.pos →
         exempt (mkOf w.log) e = true ∨ e.id ∈ dispatchedIds (projSeq w.log k pre) ∨ e.id ∈ dispatchedIds t2 := by
   intro t2
   have hscn := scn_of_ok _ _ _ hS
-  obtain ⟨hw1, htr1, _⟩ := mgr_projects orders orders_good w fp fq fc hscn acts1 k hk
-  have hscn2 : Scn w2.log (seqKeys fc2) (initOf w2.p0 w2.q0 w2.c0) := by
+  obtain ⟨hw1, htr1, _⟩ := mgr_projects orders orders_good w fp fq fc cr hpe hcr hscn acts1 k hk
+  have hscn2 : Scn w2.log (seqKeys (fc2 ++ cr2)) (initOf w2.p0 w2.q0 w2.c0) := by
     rw [hl2, hp2, hq2, hc2, hkeys]; exact hscn
-  obtain ⟨hw2, htr2, hbox2⟩ := mgr_projects orders orders_good w2 fp2 fq2 fc2 hscn2 acts2 k (by rw [hkeys]; exact hk)
+  obtain ⟨hw2, htr2, hbox2⟩ := mgr_projects orders orders_good w2 fp2 fq2 fc2 cr2 hpe2 hcr2 hscn2 acts2 k
+    (by rw [hkeys]; exact hk)
   rw [hl2] at hw2 htr2 hbox2
   rw [hstart] at hw2 htr2 hbox2
   rw [hp, projSeq_append] at htr1
-  have := C03_restart_complete k (mkOf w.log) (seqLog w.log k) _ (initOf fp fq fc k) (hscn.tiledK k hk) _ _ hw1 (projSeq w.log k pre) (projSeq w.log k post) htr1.symm hw2
+  have := C03_restart_complete k (mkOf w.log) (seqLog w.log k) _ (initOf fp fq (fc ++ cr) k) (hscn.tiledK k hk) _ _ hw1 (projSeq w.log k pre) (projSeq w.log k post) htr1.symm hw2
     (by
       intro e he
       rw [hb] at hbox2
-      rw [← Option.some.inj hbox2]
-      exact hrec e he)
+      rcases hbox2 with hbox2 | ⟨hbox2, _⟩
+      · rw [← Option.some.inj hbox2]
+        exact hrec e he
+      · cases hbox2)
   simp only at this
   rw [← htr2] at this
   exact this
